@@ -123,6 +123,8 @@ type enc struct {
 	frames     []frameRec
 	allocd     map[string]bool
 	entryLets  map[string]Val
+	rangeInfo  map[*ssa.Range]*rangeRec
+	defs       map[string]string
 }
 
 type frameRec struct {
@@ -187,6 +189,10 @@ func (e *enc) define(prefix string, s Sort, term string) string {
 	}
 	n := e.freshConst(prefix, s)
 	e.assume(eq(n, term))
+	if e.defs == nil {
+		e.defs = map[string]string{}
+	}
+	e.defs[n] = term
 	return n
 }
 
